@@ -226,6 +226,16 @@ class SlowPickleEnv:
     def __getstate__(self):
         import time; time.sleep(self.delay); return dict(self.__dict__)
     def __setstate__(self, d): self.__dict__.update(d)
+try:
+    from coba.evaluators import SequentialCB as _SequentialCB
+    class SlowParamsCB(_SequentialCB):
+        """an evaluator whose params are slow to compute: its record reaches the result later than the records of evaluators with higher ids"""
+        def __init__(self, delay): super().__init__(); self._delay = delay
+        @property
+        def params(self):
+            import time; time.sleep(self._delay); return dict(super().params, slow=True)
+except Exception: SlowParamsCB = None
+def slow_params_cb(delay): return SlowParamsCB(delay)
 def custom_eval(env, lrn):
     """a custom evaluator given as a function"""
     from coba.safety import SafeLearner
@@ -254,8 +264,8 @@ def build(spec):
             gid = e[1]
             if gid not in groups:
                 g = spec["groups"][gid]
-                base = Environments.from_linear_synthetic(g["n"], n_actions=3, n_context_features=2, n_action_features=2, seed=g["seed"])
-                if g.get("logged"): base = base.logged(RandomLearner(), seed=2.5)
+                base = Environments.from_linear_synthetic(g["n"], n_actions=g.get("na", 3), n_context_features=2, n_action_features=2, seed=g["seed"])
+                if g.get("logged"): base = base.logged(BanditEpsilonLearner(0.5, 3) if g.get("logger") == "eps" else RandomLearner(), seed=2.5)
                 if g.get("prefix") == "chunk": base = base.chunk()
                 elif g.get("prefix") == "cache": base = base.cache()
                 base = base.shuffle(n=g["fan"])
@@ -270,7 +280,7 @@ def build(spec):
     vals = []
     for v in spec["vals"]:
         kind = v[0]
-        vals.append(SequentialCB() if kind == "seq" else SequentialCB(record=["reward", "action", "probability", "context"], seed=v[1]) if kind == "seq2" else RejectionCB() if kind == "rej" else SequentialCB(record=["reward"], learn="off", eval="ips") if kind == "seqips" else custom_eval)
+        vals.append(SequentialCB() if kind == "seq" else SequentialCB(record=["reward", "action", "probability", "context"], seed=v[1]) if kind == "seq2" else RejectionCB() if kind == "rej" else SequentialCB(record=["reward"], learn="off", eval="ips") if kind == "seqips" else slow_params_cb(v[1]) if kind == "slowparams" else custom_eval)
     return [(envs[e], lrns[l], vals[v]) for e, l, v in spec["triples"]]
 
 DROP = {"predict_time", "learn_time"}
@@ -342,7 +352,7 @@ def gen_spec(rng, failures=False, batched=False):
     groups, envs = [], []
     for _ in range(rng.choice([1, 1, 2])):
         if rng.random() < 0.6:
-            g = dict(n=rng.choice([6, 8, 10]), seed=rng.randrange(1, 50), prefix=rng.choice([None, "chunk", "cache", "chunk"]), fan=rng.choice([1, 2, 3]), logged=rng.random() < 0.3)
+            g = dict(n=rng.choice([6, 8, 10]), seed=rng.randrange(1, 50), prefix=rng.choice([None, "chunk", "cache", "chunk"]), fan=rng.choice([1, 2, 3]), logged=rng.random() < 0.3, logger=rng.choice(["random", "eps"]), na=rng.choice([3, 3, 2, 4]))
             if batched and rng.random() < 0.5: g["batch"] = 2
             groups.append(g)
             for j in range(g["fan"]): envs.append(["group", len(groups) - 1, j])
@@ -350,6 +360,7 @@ def gen_spec(rng, failures=False, batched=False):
             envs.append(["lin", rng.choice([5, 8]), rng.randrange(1, 50)])
     if failures and rng.random() < 0.4: envs.append([rng.choice(["fail", "failiter"]), rng.choice([0, 2, 4])])
     pool = [["random"], ["eps"], ["ucb"], ["fixed"], ["count", 1], ["count", 2], ["kwargs"], ["info"], ["finish"]]
+    if any(g.get("na", 3) != 3 for g in groups): pool = [x for x in pool if x != ["fixed"]]      # FixedLearner's PMF has three entries
     lrns = [rng.choice(pool) for _ in range(rng.choice([1, 2, 3]))]
     if failures: lrns.append(["failing", rng.choice(["predict", "learn", "params"]), rng.choice([1, 2, 3])])
     logged_all = all(e[0] == "group" and groups[e[1]].get("logged") for e in envs)
